@@ -136,7 +136,7 @@ struct G {
         std::vector<std::string> w;
         for (int i = 0; i < 16; ++i) w.push_back(L.words[idx[i]]);
         std::string sep = " ";
-        switch (how % 10) {
+        switch (how % 11) {
         case 0: w[rng.below(16)] = L.words[rng.below(2048)]; break;                                   // another word of the list
         case 1: { int lj = (int)rng.below(model::langs.size()); w[rng.below(16)] = model::langs[lj].words[rng.below(2048)]; break; }   // foreign word
         case 2: { size_t i = rng.below(16); auto cp = split_cp(w[i]); std::string t; for (size_t k = 0; k < 3 && k < cp.size(); ++k) t += cp[k]; w[i] = t; break; }  // too short
@@ -147,9 +147,18 @@ struct G {
         case 7: w[0] = " " + w[0]; break;                                                                  // leading space
         case 8: { size_t a = rng.below(16), b = rng.below(16); std::swap(w[a], w[b]); break; }             // transposition
         case 9: w[15] += "  "; break;                                                                      // two trailing spaces
+        case 10: { std::string tail; int n = 40 + (int)rng.below(60); for (int i = 0; i < n; ++i) tail += (i % 7 == 0) ? " " : "\xE3\x81\x82"; w[15] += tail; break; }   // a long pasted note after the phrase (over-long once decomposed)
         }
         std::string r;
         for (size_t i = 0; i < w.size(); ++i) { if (i) r += sep; r += w[i]; }
+        return r;
+    }
+    // a real phrase followed by a pasted note: longer than the phrase buffer once decomposed
+    std::string overlong_phrase(const AbsSeed& s, unsigned coin) {
+        int li = model::lang_by_name_en(rng.chance(1, 2) ? "Japanese" : "Korean");
+        if (li < 0) li = 0;
+        std::string r = valid_phrase(s, li, coin, rng.chance(1, 2) ? 32 : 0);
+        while (model::nfkd_raw(r).size() < STRSZ + 40) r += rng.chance(1, 6) ? " " : "\xE3\x81\x82";
         return r;
     }
     std::string junk_phrase() {
@@ -163,7 +172,7 @@ struct G {
     }
 
     // ---- operations with model tracking
-    void config(int fill, int kdfm) { Op& o = emit(OP_CONFIG, 0, 0); o.a = (u64)fill | ((u64)kdfm << 8); o.b = rng.next() >> 1; kdf_mode = kdfm; }
+    void config(int fill, int kdfm, int fulllen = 0) { Op& o = emit(OP_CONFIG, 0, 0); o.a = (u64)fill | ((u64)kdfm << 8) | ((u64)fulllen << 9); o.b = rng.next() >> 1; kdf_mode = kdfm; }
     void inject(int gen, unsigned opt) { Op& o = emit(OP_INJECT, 0, 0); o.a = gen; o.b = opt; }
     void enable(int task, u64 m) { Op& o = emit(OP_ENABLE, task, 0); o.a = m; mask = (unsigned)m & 7; }
     void create(int t, int s, u64 features, int skind, std::vector<u64> clock) {
@@ -250,7 +259,7 @@ static void walk(G& g, int nops, const Weights& w, bool allow_reinject) {
                 case 0: p = g.junk_phrase(); break;
                 case 1: p = g.valid_phrase(sd, li, coin, 0); coin = (coin + 1 + (unsigned)g.rng.below(2047)) & 2047; break;      // wrong coin
                 case 2: { p = g.valid_phrase(sd, li, coin, 0); int lj = g.pick_lang(); g.decode(t, fs, p, coin, lj); continue; } // explicit decoding in another language
-                default: p = g.broken_phrase(sd, li, coin, (int)g.rng.below(10));
+                default: p = g.broken_phrase(sd, li, coin, (int)g.rng.below(11));
                 }
                 g.decode(t, fs, p, coin, g.rng.chance(1, 2) ? -1 : li);
             }
@@ -275,7 +284,11 @@ static void walk(G& g, int nops, const Weights& w, bool allow_reinject) {
     }
 }
 
+// Every plan starts from the same library state whatever ran before it in the process: all eight dependencies
+// injected (generation 0) and no feature enabled. Explicit operations, so the replay file carries them too.
+static void reset_state(G& g) { g.inject(0, 7); g.enable(0, 0); }
 static void prologue(G& g, int fill, int kdfm, int gen, unsigned opt, u64 mask) {
+    reset_state(g);
     g.config(fill, kdfm);
     g.inject(gen, opt);
     g.enable(0, mask);
@@ -424,7 +437,7 @@ static Plan make_C12(u64 seed, int variant) {
     choose_langs(g);
     g.plan.ntasks = g.ntasks = 1 + (int)g.rng.below(2);
     (void)variant;
-    prologue(g, 1 + (int)g.rng.below(3), 1, (int)g.rng.below(3), (unsigned)g.rng.below(8), 7);
+    prologue(g, 1 + (int)g.rng.below(3), 1, (int)g.rng.below(3), (unsigned)g.rng.below(8), g.rng.chance(1, 2) ? 7 : (7 | (g.rng.next() << 3)));
     int t = 0;
     int nseeds = 1 + (int)g.rng.below(3);
     for (int k = 0; k < nseeds; ++k) {
@@ -447,12 +460,13 @@ static Plan make_C12(u64 seed, int variant) {
             // the result must be usable like any seed
             int n2 = g.free_slot(t);
             AbsSeed sd = g.seeds[{t, s}];
-            switch (g.rng.below(5)) {
-            case 0: if (n2 >= 0) { int li = g.pick_lang(); unsigned coin = g.pick_coin(); g.encode(t, s, li, coin); g.decode(t, n2, g.valid_phrase(sd, li, coin, (int)g.rng.below(64)), coin, g.rng.chance(1, 2) ? -1 : li); if (g.live(t, n2)) { g.store(t, n2); if (g.rng.chance(1, 2)) { g.crypt(t, n2, use); g.store(t, n2); } g.free_seed(t, n2); } } break;
-            case 1: if (n2 >= 0) { g.load_seed(t, n2, sd); if (g.live(t, n2)) { if (g.rng.chance(1, 2)) { g.crypt(t, n2, use); g.store(t, n2); } g.free_seed(t, n2); } } break;
+            switch (g.rng.below(7)) {
+            case 0: if (n2 >= 0) { int li = g.pick_lang(); unsigned coin = g.pick_coin(); g.encode(t, s, li, coin); g.decode(t, n2, g.valid_phrase(sd, li, coin, (int)g.rng.below(64)), coin, g.rng.chance(1, 2) ? -1 : li); if (g.live(t, n2)) { g.store(t, n2); if (g.rng.chance(1, 2)) { g.crypt(t, n2, use); g.store(t, n2); g.keygen(t, n2, g.pick_coin(), 32); } g.free_seed(t, n2); } } break;
+            case 1: if (n2 >= 0) { g.load_seed(t, n2, sd); if (g.live(t, n2)) { if (g.rng.chance(1, 2)) { g.crypt(t, n2, use); g.store(t, n2); g.keygen(t, n2, g.pick_coin(), 32); } g.free_seed(t, n2); } } break;
             case 2: g.inject((int)g.rng.below(3), (unsigned)g.rng.below(8)); break;
             case 3: g.emit(OP_GETB, t, s); { Op& o = g.emit(OP_GETF, t, s); o.a = 7; } break;
-            default: break;
+            case 4: g.enable(t, g.rng.chance(1, 2) ? 7 : (7 | (g.rng.next() << 3))); break;
+            default: g.keygen(t, s, g.pick_coin(), 32); break;
             }
         }
     }
@@ -483,8 +497,15 @@ static Plan make_C16(u64 seed, int variant) {
     g.plan.ntasks = g.ntasks = 1 + (int)g.rng.below(2);
     g.alloc_fail_pct = (variant % 2) ? 25 : 0;
     prologue(g, 2, 0, (int)g.rng.below(3), 7, g.rng.below(8));
+    bool fulllen = g.rng.chance(1, 3);
+    if (fulllen) g.config(2, 0, 1);
     Weights w; w.create = 10; w.load = 8; w.loadbad = 6; w.decode = 12; w.decodebad = 12; w.fabricate = 8; w.encode = 10; w.crypt = 8; w.keygen = 4; w.store = 4; w.free_ = 10; w.get = 1; w.enable = 2; w.inject = 0; w.langq = 0;
     walk(g, 4 + (int)g.rng.below(24), w, false);
+    if (fulllen || g.rng.chance(1, 8)) {
+        // over-long inputs: the exits taken when the normalised text does not fit
+        int t = 0, fs = g.free_slot(t);
+        if (fs >= 0) { AbsSeed sd = g.fabricate(0); unsigned coin = g.pick_coin(); std::string p = g.overlong_phrase(sd, coin); g.decode(t, fs, p, coin, g.rng.chance(1, 2) ? -1 : model::lang_by_name_en("Japanese")); }
+    }
     return g.plan;
 }
 
@@ -494,6 +515,7 @@ static Plan make_C18(u64 seed, int variant) {
     (void)variant;
     g.plan.ntasks = g.ntasks = 1 + (int)g.rng.below(2);
     g.alloc_fail_pct = g.rng.chance(1, 4) ? 10 : 0;
+    reset_state(g);
     g.config((int)g.rng.below(4), (int)g.rng.below(2));
     int ninj = 2 + (int)g.rng.below(5);
     int lastgen = -1;
